@@ -442,6 +442,13 @@ func (e *env) wkbSpecial(r *gen.R) {
 		if code != 7 {
 			levels = r.IntRange(2, 50)
 		}
+		// the declared member count of every level: honest (1), or inflated at EVERY level (a
+		// reader that reserves per declared member, even capped by the unread input, then reserves
+		// that much once per level)
+		count := uint32(1)
+		if r.Chance(0.5) {
+			count = []uint32{2, 300, 20000, 1 << 24, 0xFFFFFFFF}[r.Intn(5)]
+		}
 		var b []byte
 		for i := 0; i < levels && len(b)+9 <= 65536; i++ {
 			if le {
@@ -451,7 +458,7 @@ func (e *env) wkbSpecial(r *gen.R) {
 			}
 			var w [8]byte
 			putU32(w[:], 0, le, code)
-			putU32(w[:], 4, le, 1)
+			putU32(w[:], 4, le, count)
 			b = append(b, w[:]...)
 			if r.Chance(0.01) {
 				le = !le
